@@ -27,7 +27,7 @@ from pyvc import extract                          # noqa: E402
 
 ALPHABET = [
     'Int(1)', 'Int(2)', 'Int(4)', 'Int(8)', 'Int(2, signed=True)', 'Int(1, signed=True)',
-    'Int(4, endianness="little")', 'Int(2, endianness="little", signed=True)',
+    'Int(4, endianness="little")', 'Int(2, endianness="little", signed=True)', 'Int(2, endianness="local")',
     'Int(3)', 'Data(2)', 'Data(1)', 'Data(until_marker=b"\\n")', 'Ref(Inner)',
     'Int(1).repeated(2)', 'Int(2).at(6)', 'BITS',
 ]
@@ -112,17 +112,26 @@ def tv_engine():
     return eng
 
 
+def int_is_inlined(e):
+    """an Int entry whose real pack/unpack are the primitive-size pair with an explicit-endianness struct format"""
+    return (e['cls'] == 'Int' and bool(e['struct_code']) and e.get('struct_format') and e['struct_format'][0] in '<>!'
+            and e.get('pack_name') == '_pack_fixed_and_primitive_size' and e.get('unpack_name') == '_unpack_fixed_and_primitive_size')
+
+
 def concrete_table(eng, st, info):
     """the field table of the class as concrete objects; returns VTuple of (name, field, pack, unpack)"""
     rows = []
     for i, e in enumerate(info['table']):
         r = z3.IntVal(1000 + i)
         name = VStr(e['name'])
-        if e['cls'] == 'Int' and e['struct_code']:
+        if int_is_inlined(e):
             f = VRef(r, 'Int')
+            # the struct object the generic loop really uses: its own format string as compiled by Int._compile
+            fmt = e['struct_format']
+            so = T.SF.mksf(fmt[0] == '>' or (fmt[0] == '!' ), e['struct_size'], fmt[-1].islower())
             for a, v in (('byte_count', z3.IntVal(e['byte_count'])), ('is_signed', z3.BoolVal(e['is_signed'])),
                          ('is_bigendian', z3.BoolVal(e['is_bigendian'])),
-                         ('struct_obj', T.SF.mksf(e['is_bigendian'], e['byte_count'], e['is_signed'])),
+                         ('struct_obj', so),
                          ('field_name', z3.StringVal(e['field_name']))):
                 owner, kind = eng.attr_kind('Int', a)
                 key = '%s.%s' % (owner, a)
@@ -185,7 +194,7 @@ def validate(eng, name, info, direction):
     k = VKw(z3.Const('k', T.Kw))
     table = concrete_table(eng, st, info)
     eng.tv_fixed_names = [e['field_name'] for e in info['table']
-                          if (e['cls'] == 'Int' and e['struct_code']) or (e['cls'] == 'Data' and e['is_fixed'] and e['byte_count'] is not None)]
+                          if int_is_inlined(e) or (e['cls'] == 'Data' and e['is_fixed'] and e['byte_count'] is not None)]
     eng.tv_tables = {'get_fields': table,
                      'get_sync_before_pack_methods': VTuple([VFunc('detrole', 'SYNC.pack', z3.IntVal(3000 + i)) for i in range(info['sync_pack'])]),
                      'get_sync_after_unpack_methods': VTuple([VFunc('detrole', 'SYNC.unpack', z3.IntVal(3100 + i)) for i in range(info['sync_unpack'])])}
